@@ -29,6 +29,8 @@ type Env struct {
 	frame      *frame // for invariants: resolve locals
 	depth      int
 	entryAlloc Term
+	goal       bool
+	extraCands map[string][]Term
 	siteBlock  *ssa.BasicBlock
 	siteInstr  ssa.Instruction
 }
@@ -674,6 +676,65 @@ func (env *Env) call(x *ast.CallExpr) (tv, error) {
 		return env.trans(x.Args[i])
 	}
 	switch id.Name {
+	case "forall":
+		// forall(k, Type, body): positive positions only. Goal: skolemised. Assumption: instantiated at the
+		// candidate terms of that sort (call arguments, parameters of the function under verification, goal skolems).
+		if len(x.Args) != 3 {
+			return tv{}, env.errf(x, "forall(var, Type, body)")
+		}
+		vid, ok := x.Args[0].(*ast.Ident)
+		if !ok {
+			return tv{}, env.errf(x, "forall: first argument must be an identifier")
+		}
+		t, err := env.typeOf(x.Args[1])
+		if err != nil {
+			return tv{}, err
+		}
+		sort := sc.sortOf(t)
+		bind := func(v Term) (tv, error) {
+			e2 := *env
+			e2.vars = map[string]tv{}
+			for k, val := range env.vars {
+				e2.vars[k] = val
+			}
+			e2.vars[vid.Name] = tv{t: v, typ: t}
+			return e2.trans(x.Args[2])
+		}
+		if env.goal {
+			sk := ex.skolemFor(types.ExprString(x), sort)
+			return bind(sk)
+		}
+		var conj []Term
+		for _, c := range ex.instCands[sort] {
+			r, err := bind(c)
+			if err != nil {
+				return tv{}, err
+			}
+			conj = append(conj, r.t)
+		}
+		for _, c := range env.extraCands[sort] {
+			r, err := bind(c)
+			if err != nil {
+				return tv{}, err
+			}
+			conj = append(conj, r.t)
+		}
+		return tv{t: and(conj...)}, nil
+	case "upd":
+		// upd(m, k, v): ghost map update
+		m, err := argv(0)
+		if err != nil {
+			return tv{}, err
+		}
+		k, err := argv(1)
+		if err != nil {
+			return tv{}, err
+		}
+		v, err := argv(2)
+		if err != nil {
+			return tv{}, err
+		}
+		return tv{t: store(m.t, k.t, v.t), typ: m.typ}, nil
 	case "old":
 		return env.with(env.old).trans(x.Args[0])
 	case "implies":
